@@ -60,9 +60,11 @@ def lit(s):
 
 
 def run(r):
-    r.cov["rule"] = ("theorems: the 15-bit digit codec for every integer; correspondence: random plain value trees (ints at 2^15/2^31/2^63/2^200 boundaries, floats incl. inf/-0.0/subnormal, "
+    r.cov["rule"] = ("theorems: loads(dumps v) = v for every plain value tree (two readers) and the 15-bit digit codec; correspondence: random plain value trees (ints at 2^15/2^31/2^63/2^200 boundaries, floats incl. inf/-0.0/subnormal, "
                      "text from ASCII/Latin-1/BMP/astral/lone surrogates, bytes, tuples/lists up to 300 items, sets, frozensets, dicts with None keys) through "
                      "xdis.marsh.dumps (bytes vs model, and the host's marshal.loads of them) and xdis.marsh.loads of the host's marshal.dumps(v, 0|1); non-trivial = container value")
+    r.cov["explanation"] = ("Theorems: loads(dumps v) = v for every plain value tree through xdis.marsh's reader and through CPython's reader of every 3.x magic (Spec side). "
+                            "By correspondence only: that Model.Marsh.dumps is what xdis.marsh.dumps writes, and xdis.marsh.loads of the HOST's marshal.dumps output.")
     broken = r.generate("magics", "dispatch")
     ok = False if broken else r.build(extra_targets=["Model/Marsh.vo", "Model/UnmarshalObs.vo"])
     if broken or not ok:
@@ -132,5 +134,3 @@ def run(r):
 def ft_of(payload):
     from props import c01
     return MG.ft_lit(c01.float_table(payload))
-    r.cov["explanation"] = ("Theorems: loads(dumps v) = v for every plain value tree through xdis.marsh's reader and through CPython's reader of every 3.x magic (Spec side). "
-                            "By correspondence only: that Model.Marsh.dumps is what xdis.marsh.dumps writes, and xdis.marsh.loads of the HOST's marshal.dumps output.")
